@@ -97,6 +97,9 @@ class Engine:
         self.known = {}
         self.key_syms = []
         self.hash_memo = {}
+        self.divs = {}
+        self.divq = {}
+        self.approx = False
         self.key_consts = []
         self.key_consts_set = set()
 
@@ -113,6 +116,9 @@ class Engine:
         self.known = {}
         self.key_syms = []
         self.hash_memo = {}
+        self.divs = {}
+        self.divq = {}
+        self.approx = False
 
     def _check(self, *assumptions):
         self.queries += 1
@@ -401,6 +407,12 @@ class SymInt:
     def __mul__(s, o):
         if _isinstance(o, (SymReal, float)):
             return SymReal(z3.ToReal(s.e)) * o
+        if _isinstance(o, SymInt):
+            # (a // b) * b == a - a % b: keeps the arithmetic linear
+            for x, y in ((s, o), (o, s)):
+                d = E.divq.get(x.e.get_id())
+                if d is not None and d[1].get_id() == y.e.get_id():
+                    return SymInt(d[0] - d[2])
         return SymInt(s.e * _z(o))
 
     __rmul__ = __mul__
@@ -623,9 +635,32 @@ def register_keys(values):
             E.key_consts.append(v)
 
 
+def _divmod_relaxed(a, b):
+    """a // b and a % b for a symbolic positive divisor b without non-linear terms: fresh q, r with
+    0 <= r < b, (q == 0) <=> (0 <= a < b), sign(q) = sign(a), |q| <= |a|; the exact tie a = q*b + r is
+    only used when the code multiplies q by b again (see SymInt.__mul__).  An over-approximation:
+    the path is marked approximate."""
+    key = (a.get_id(), b.get_id())
+    hit = E.divs.get(key)
+    if hit is not None:
+        return hit[2], hit[3]
+    E.fresh += 1
+    q = z3.Int("quo!%d" % E.fresh)
+    r = z3.Int("rem!%d" % E.fresh)
+    E.add_fact(z3.And(r >= 0, r < b, z3.Implies(a >= 0, z3.And(q >= 0, q <= a)), z3.Implies(a < 0, z3.And(q < 0, q >= a)), (q == 0) == z3.And(a >= 0, a < b), z3.Implies(q >= 1, a >= b)))
+    E.divs[key] = (a, b, q, r)
+    E.divq[q.get_id()] = (a, b, r)
+    E.approx = True
+    return q, r
+
+
 def _floordiv(a, o):
     """Python floor division of z3 Int a by o (int | SymInt)"""
     if _isinstance(o, SymInt):
+        ov = z3.simplify(o.e)
+        if not z3.is_int_value(ov) and not z3.is_int_value(z3.simplify(a)):
+            if E.branch(o.e > 0):
+                return _divmod_relaxed(a, o.e)[0]
         if E.branch(o.e > 0):
             return a / o.e
         if E.branch(o.e == 0):
@@ -641,6 +676,10 @@ def _floordiv(a, o):
 
 def _mod(a, o):
     if _isinstance(o, SymInt):
+        ov = z3.simplify(o.e)
+        if not z3.is_int_value(ov) and not z3.is_int_value(z3.simplify(a)):
+            if E.branch(o.e > 0):
+                return _divmod_relaxed(a, o.e)[1]
         if E.branch(o.e > 0):
             return a % o.e
         if E.branch(o.e == 0):
@@ -796,6 +835,32 @@ def _real(x):
     raise Unsupported("cannot turn %r into a real term" % type(x))
 
 
+def _is_const(e):
+    e = z3.simplify(e)
+    return z3.is_rational_value(e) or z3.is_int_value(e)
+
+
+def _sign_only(a, b, op):
+    """product / quotient of two symbolic reals as a fresh real constrained by sign facts only
+    (DESIGN 3.5); marks the path approximate"""
+    E.fresh += 1
+    x = z3.Real("%s!%d" % (op, E.fresh))
+    pos = z3.Or(z3.And(a > 0, b > 0), z3.And(a < 0, b < 0))
+    neg = z3.Or(z3.And(a > 0, b < 0), z3.And(a < 0, b > 0))
+    facts = [z3.Implies(pos, x > 0), z3.Implies(neg, x < 0), z3.Implies(a == 0, x == 0)]
+    if op == "mul":
+        facts.append(z3.Implies(b == 0, x == 0))
+        facts.append(z3.Implies(z3.And(a >= 0, b >= 0, b <= 1), x <= a))
+        facts.append(z3.Implies(z3.And(a >= 0, b >= 1), x >= a))
+    else:
+        facts.append(z3.Implies(z3.And(a >= 0, b >= 1), x <= a))
+        facts.append(z3.Implies(z3.And(a >= 0, b > 0, b <= 1), x >= a))
+        facts.append(z3.Implies(z3.And(a >= 0, b > 0, a <= b), x <= 1))
+    E.add_fact(z3.And(*facts))
+    E.approx = True
+    return x
+
+
 class SymReal:
     __slots__ = ("e",)
 
@@ -814,7 +879,10 @@ class SymReal:
         return SymReal(_real(o).e - s.e)
 
     def __mul__(s, o):
-        return SymReal(s.e * _real(o).e)
+        b = _real(o).e
+        if not _is_const(s.e) and not _is_const(b):
+            return SymReal(_sign_only(s.e, b, "mul"))
+        return SymReal(s.e * b)
 
     __rmul__ = __mul__
 
@@ -822,6 +890,8 @@ class SymReal:
         d = _real(o)
         if E.branch(d.e == 0):
             raise ZeroDivisionError("float division by zero")
+        if not _is_const(d.e) and not _is_const(s.e):
+            return SymReal(_sign_only(s.e, d.e, "div"))
         return SymReal(s.e / d.e)
 
     def __rtruediv__(s, o):
@@ -1448,6 +1518,15 @@ def Bool(name):
     return E.branch(x)
 
 
+def SBool(name):
+    """a symbolic boolean that is only decided when (and if) the code under test looks at it"""
+    if E.mode == "replay":
+        return bool(E.replay_values.get(name, False))
+    x = z3.Bool(name)
+    E.inputs[name] = ("bool", x)
+    return SymBool(x)
+
+
 def Choice(name, n):
     """solver-chosen index in range(n) (a decision)"""
     if E.mode == "replay":
@@ -1676,7 +1755,7 @@ def explore(fn, max_paths=200000, max_seconds=600.0, stop_on_violation=True, see
             key = (v.msg, v.site)
             if key not in seen_viol:
                 seen_viol.add(key)
-                res.violations.append({"msg": v.msg, "site": v.site, "inputs": v.inputs})
+                res.violations.append({"msg": v.msg, "site": v.site, "inputs": v.inputs, "approx": E.approx})
         except Unsupported as exc:
             res.inconclusive.append("unsupported: %s" % exc)
         except RecursionError:
@@ -1694,7 +1773,7 @@ def explore(fn, max_paths=200000, max_seconds=600.0, stop_on_violation=True, see
                     seen_viol.add(key)
                     m = E.model_for()
                     inputs = E.extract_inputs(m) if m is not None else None
-                    res.violations.append({"msg": msg, "site": site, "inputs": inputs, "exc": "%s: %s" % (type(exc).__name__, exc)})
+                    res.violations.append({"msg": msg, "site": site, "inputs": inputs, "exc": "%s: %s" % (type(exc).__name__, exc), "approx": E.approx})
         finally:
             signal.alarm(0)
         res.paths += 1
